@@ -393,13 +393,14 @@ def evaluate(ctx, r):
 
 
 def fph1(r, p):
-    """signature of known finding F-PH1 (see known_findings.d/phase.json)"""
+    """signature of known finding F-PH1 (known_findings.d/phase.json): configuration, plan, and a stop-band shortfall not above the
+    worst value measured for that precision plus the stated margin (checks/phaselib.py: FPH1_WORST_DB, calibrated by design-probes/fph1/fph1_sweep*.py)"""
     cur = r["phase"][p]
     bits = float(cur["q"]["prec"])
     ph = float(cur["q"]["phase"])
-    short = any(s["kind"] == "dft" and int(s["numTaps"]) < 256 for s in cur["plan"])
+    allow = P.fph1_allowance_db(bits, ph)
     sb = r["proto"]["per"][p]["sb_db"]
-    return bits >= 28 and 0 < min(ph, 100 - ph) <= 25 and short and sb <= -6.0206 * bits + 18.0
+    return allow is not None and P.fph1_plan(cur["plan"]) and sb <= -6.0206 * bits + allow
 
 
 BASE_RATIOS = [(1, 2), (2, 1), (1, 4), (3, 1), (2, 3), (1, 8), (1, 16), (1, 128), (1, 64), (44100, 48000), (3.14159, 1), (1, 1.41421356),
